@@ -10,7 +10,7 @@ Exit codes: 0 held, 1 violation (reproduced on real code), 2 framework problem.
 """
 import hashlib
 import json
-import os
+import os, threading
 import random
 import re
 import shutil
@@ -98,6 +98,7 @@ class Check:
         self.rng = random.Random(self.seed)
         self.t0 = time.time()
         self.scratch = tempfile.mkdtemp(prefix="verif-%s-" % pid)
+        self._covlock = threading.Lock()
         self.cov = {"samples": [], "states": 0, "transitions": 0, "traces_validated_against_impl": 0,
                     "evaluations": 0, "distinct_nontrivial": 0, "rule": "", "tlc_runs": []}
         self.assumptions = []
@@ -182,11 +183,12 @@ class Check:
         p = subprocess.run(cmd, cwd=wd, env=env, capture_output=True, text=True)
         r = TLCResult(p.stdout + p.stderr, p.returncode, time.time() - t)
         r.wd = wd
-        if count:
-            self.cov["states"] += r.distinct
-            self.cov["transitions"] += r.generated
-        self.cov["tlc_runs"].append({"name": name or (module + ":" + cfg), "distinct": r.distinct, "generated": r.generated,
-                                     "wall_s": round(r.wall, 2), "rc": p.returncode})
+        with self._covlock:
+            if count:
+                self.cov["states"] += r.distinct
+                self.cov["transitions"] += r.generated
+            self.cov["tlc_runs"].append({"name": name or (module + ":" + cfg), "distinct": r.distinct, "generated": r.generated,
+                                         "wall_s": round(r.wall, 2), "rc": p.returncode})
         if p.returncode == 124:
             raise FrameworkError("TLC timeout on %s %s" % (module, cfg))
         if must_pass and not (r.ok or (simulate and p.returncode == 0)):
@@ -341,7 +343,7 @@ class Check:
                         return line.rstrip("\n")
             return None
         for sc in list(results) + list(deaths):
-            self.prefix_of[(family, sc)] = [(sc, lookup(sc))]
+            self.prefix_of[(family, sc)] = ([(sc, lookup(sc))], 1)
         return results, deaths, lookup, n
 
     def validate_traces(self, module, cfg, events, shards=None, timeout=1800, name=None):
@@ -401,7 +403,7 @@ class Check:
         results, deaths = {}, {}
         for ch in chunks:          # remember which scenarios preceded each one in its worker process
             for k, (sid, _) in enumerate(ch):
-                self.prefix_of[(family, sid)] = ch[:k + 1]
+                self.prefix_of[(family, sid)] = (ch, k + 1)      # the chunk and how much of it: sliced only when a reproduction needs it
         wenv = dict(env or os.environ, VERIF_SEED=str(self.seed))
 
         def run_chunk(chunk):
@@ -518,6 +520,7 @@ class Check:
         pref = self.prefix_of.get((family, sc))
         if not pref:
             raise FrameworkError("no record of scenario %s" % sc)
+        pref = pref[0][:pref[1]]
         for attempt in range(3):     # a deviation that depends on wall-clock timing gets three chances
             r, d = self.run_worker(family, [pref[-1]], parallel=1, env=env)
             if sc in d or still_bad(r.get(sc, [])):
